@@ -161,10 +161,10 @@ func c03IDs(out string) []string {
 	return ids
 }
 
-var c03Consumers = []string{"vif", "velseif", "neg", "vshow", "bind", "class", "notnot", "andt", "negandt", "orf", "tern", "bindneg", "vshowstyle", "vshowchain", "vshowelse"}
+var c03Consumers = []string{"vif", "velseif", "neg", "vshow", "bind", "class", "notnot", "andt", "negandt", "orf", "tern", "bindneg", "vshowstyle", "vshowchain", "vshowelse", "and3", "andor", "orand", "ternand", "class3"}
 
 // consumers that put the value inside a compound expression
-var c03InExpr = map[string]bool{"notnot": true, "andt": true, "negandt": true, "orf": true, "tern": true, "bindneg": true}
+var c03InExpr = map[string]bool{"notnot": true, "andt": true, "negandt": true, "orf": true, "tern": true, "bindneg": true, "and3": true, "andor": true, "orand": true, "ternand": true, "class3": true}
 
 func c03TruthTpl(consumer, x string) string {
 	switch consumer {
@@ -184,6 +184,17 @@ func c03TruthTpl(consumer, x string) string {
 		return fmt.Sprintf(`<i id="m" v-if="%s || f0">y</i>`, x)
 	case "tern":
 		return fmt.Sprintf(`<i id="m" :data-x="%s ? 'y' : ''">y</i>`, x)
+	// the value in the middle of three operands, and as the right operand of an inner && / ||
+	case "and3":
+		return fmt.Sprintf(`<i id="m" v-if="t1 && %s && t1">y</i>`, x)
+	case "andor":
+		return fmt.Sprintf(`<i id="m" v-show="(t1 && %s) || f0">y</i>`, x)
+	case "orand":
+		return fmt.Sprintf(`<b v-if="f0">n</b><i id="m" v-else-if="(f0 || %s) && t1">y</i>`, x)
+	case "ternand":
+		return fmt.Sprintf(`<i id="m" :data-x="(t1 && %s) ? 'y' : ''">y</i>`, x)
+	case "class3":
+		return fmt.Sprintf(`<i id="m" :class="{on: t1 && %s && t1}">y</i>`, x)
 	case "bindneg":
 		return fmt.Sprintf(`<i id="m" :data-x="!%s">y</i>`, x)
 	case "vshow":
@@ -360,7 +371,7 @@ type c03RootPtr struct {
 func c03Judge(consumer, out string) (truthy bool, err error, o string) {
 	m := htmlcmp.ByID(htmlcmp.Parse(out), "m")
 	switch consumer {
-	case "vif", "velseif", "notnot", "andt", "orf":
+	case "vif", "velseif", "notnot", "andt", "orf", "and3", "orand":
 		return m != nil, nil, out
 	case "neg", "negandt":
 		return m == nil, nil, out
@@ -370,13 +381,13 @@ func c03Judge(consumer, out string) (truthy bool, err error, o string) {
 		}
 		_, ok := htmlcmp.Attr(m, "data-x")
 		return !ok, nil, out
-	case "tern":
+	case "tern", "ternand":
 		if m == nil {
 			return false, fmt.Errorf("element lost"), out
 		}
 		_, ok := htmlcmp.Attr(m, "data-x")
 		return ok, nil, out
-	case "vshow", "vshowstyle", "vshowchain", "vshowelse":
+	case "vshow", "vshowstyle", "vshowchain", "vshowelse", "andor":
 		if m == nil {
 			return false, fmt.Errorf("element lost"), out
 		}
@@ -388,7 +399,7 @@ func c03Judge(consumer, out string) (truthy bool, err error, o string) {
 		}
 		_, ok := htmlcmp.Attr(m, "data-x")
 		return ok, nil, out
-	case "class":
+	case "class", "class3":
 		if m == nil {
 			return false, fmt.Errorf("element lost"), out
 		}
@@ -497,7 +508,7 @@ func (c *c03Case) Run(ctx *core.Ctx) {
 				// these paths are spellings of the stack's path syntax, not of the expression language
 				continue
 			}
-			if cons == "tern" && (c.Reach == "nowhere" || c.Reach == "pastend") {
+			if (cons == "tern" || cons == "ternand") && (c.Reach == "nowhere" || c.Reach == "pastend") {
 				// the expression library refuses to look into nothing inside a larger expression: the
 				// render fails, loudly - only the path and its negation have a meaning of their own
 				continue
@@ -539,7 +550,7 @@ func init() {
 		ID:    "C03",
 		Level: "exploration",
 		Rule: "chain part: every sibling list up to the bound over {plain, v-if(T/F), v-else-if(T/F), v-else, v-for over an empty / one-element list, v-else / v-else-if members that are themselves loops} x separators {none, whitespace, comment, both} x placements {top, div, v-for x2, <template> members, nested in a taken branch, deep, as the whole of a component file with element members / with <template> members}; oracle: reference chain evaluator gives the ordered marker list. " +
-			"truth part: 46 Go values x 9 ways of reaching them (variable, nested key, loop item, struct field by JSON tag, field of struct root data by its Go name where the tag is another name, a missing value also as a path that leads nowhere - two steps below an undefined key, past the end of a list -, dotted index, hyphenated key, slot content evaluated a second time after a value of the opposite truthiness, a loop variable that shadows an outer variable of the opposite truthiness; a nil pointer also as a field of struct root data, own and promoted from an embedded struct) x 12 consumers (v-if, v-else-if, !x, v-show, :attr, :class object, !!x, x && true, !x && true, x || false, x ? : in a binding, :attr with !x, v-show next to a static style and on v-if / v-else members); oracles: documented table and agreement between consumers. non-trivial = chain of >=2 members with defined semantics, or any truth case",
+			"truth part: 46 Go values x 9 ways of reaching them (variable, nested key, loop item, struct field by JSON tag, field of struct root data by its Go name where the tag is another name, a missing value also as a path that leads nowhere - two steps below an undefined key, past the end of a list -, dotted index, hyphenated key, slot content evaluated a second time after a value of the opposite truthiness, a loop variable that shadows an outer variable of the opposite truthiness; a nil pointer also as a field of struct root data, own and promoted from an embedded struct) x 20 consumers (v-if, v-else-if, !x, v-show, :attr, :class object, !!x, x && true, !x && true, x || false, x ? : in a binding, :attr with !x, the value in the middle of three && operands in v-if and in a :class value, as the right operand of a parenthesised && / || that is itself an operand or the condition of ? :, v-show next to a static style and on v-if / v-else members); oracles: documented table and agreement between consumers. non-trivial = chain of >=2 members with defined semantics, or any truth case",
 		Bounds:      map[string]string{"quick": "sibling lists of length <= 5", "thorough": "sibling lists of length <= 6"},
 		Assumptions: []string{"what an orphan v-else/v-else-if renders, and members after a v-else, are unconstrained (only plain siblings are checked there)", "NaN and the string \"false\" are checked for uniformity only"},
 		Decode:      core.DecodeAs[c03Case](),
